@@ -172,7 +172,10 @@ class Gen:
         dt = self.dt
         n = t.__name__
         tzs = [None, datetime.timezone.utc] + [datetime.timezone(datetime.timedelta(minutes=m)) for m in (60, -60, 330, -570, 1, -1, -59, 59, 839, -839)]
-        tzs_small = [None] + [datetime.timezone(datetime.timedelta(minutes=m)) for m in (0, 60, -60, 330, -30, -59, 45, 345, 719, -719)]
+        # (round 7) date-like values take zones over the whole range -14:00..+14:00 as well (the zone of a date beyond +12:00 used to be
+        # wrapped; repaired by 286e7ab, and the zoo now pins it)
+        tzs_small = [None] + [datetime.timezone(datetime.timedelta(minutes=m)) for m in (0, 60, -60, 330, -30, -59, 45, 345, 719, -719, 780, -720)] \
+            + [datetime.timezone(datetime.timedelta(minutes=m)) for m in (840, -840, 765, 720, -779)]
         ranges = {"Long": (-2**63, 2**63 - 1), "Int": (-2**31, 2**31 - 1), "Short": (-2**15, 2**15 - 1), "Byte": (-128, 127),
                   "NonPositiveInteger": (-10**30, 0), "NegativeInteger": (-10**30, -1), "NonNegativeInteger": (0, 10**30),
                   "PositiveInteger": (1, 10**30), "UnsignedLong": (0, 2**64 - 1), "UnsignedInt": (0, 2**32 - 1),
@@ -207,17 +210,17 @@ class Gen:
             return [datetime.time(h, mi, s, us, z) for (h, mi, s, us), z in
                     zip([(0, 0, 0, 0), (23, 59, 59, 999999), (12, 0, 0, 250000), (1, 2, 3, 0)] * 3, tzs)]
         if t is dt.Date:
-            return [dt.Date(y, mo, d, z) for (y, mo, d), z in zip([(1000, 1, 1), (9999, 12, 28), (2024, 2, 29), (1999, 12, 31)] * 3, tzs_small)]
+            return [dt.Date(y, mo, d, z) for (y, mo, d), z in zip([(1000, 1, 1), (9999, 12, 28), (2024, 2, 29), (1999, 12, 31)] * 5, tzs_small)]
         if t is dt.GYearMonth:
-            return [dt.GYearMonth(y, mo, z) for (y, mo), z in zip([(1000, 1), (9999, 12), (2024, 5)] * 4, tzs_small)]
+            return [dt.GYearMonth(y, mo, z) for (y, mo), z in zip([(1000, 1), (9999, 12), (2024, 5)] * 6, tzs_small)]
         if t is dt.GYear:
-            return [dt.GYear(y, z) for y, z in zip([1000, 9999, 2024] * 4, tzs_small)]
+            return [dt.GYear(y, z) for y, z in zip([1000, 9999, 2024] * 6, tzs_small)]
         if t is dt.GMonthDay:
-            return [dt.GMonthDay(mo, d, z) for (mo, d), z in zip([(1, 1), (12, 31), (2, 29), (6, 15)] * 3, tzs_small)]
+            return [dt.GMonthDay(mo, d, z) for (mo, d), z in zip([(1, 1), (12, 31), (2, 29), (6, 15)] * 5, tzs_small)]
         if t is dt.GMonth:
-            return [dt.GMonth(mo, z) for mo, z in zip([1, 12, 5] * 4, tzs_small)]
+            return [dt.GMonth(mo, z) for mo, z in zip([1, 12, 5] * 6, tzs_small)]
         if t is dt.GDay:
-            return [dt.GDay(d, z) for d, z in zip([1, 31, 15] * 4, tzs_small)]
+            return [dt.GDay(d, z) for d, z in zip([1, 31, 15] * 6, tzs_small)]
         raise ValueError(t)
 
     def zoo_submodel(self):
